@@ -177,6 +177,19 @@ theorem C12_reload_independent (d₁ d₂ : Container) (hcfg : d₁.cfg = d₂.c
   obtain ⟨a, _, c, d⟩ := h3 n hn
   exact ⟨a, c, d, get_of_same c d⟩
 
+/-- Several live containers: in the model a container is a value that owns its palette and its storage, so an
+operation on container `k` of a list (any operation: `Set`, `ReadFrom`, …) leaves every other container — its
+representation, hence every `Get` and the abstraction — exactly as it was.  (The harness holds the real code to
+this frame property with `pal.multi`: every container is read after every step on any of them.) -/
+theorem C12_containers_independent (cs : List Container) (k : Nat) (op : Container → Container) (j : Nat) (hj : j ≠ k) :
+    (applyAt cs k op)[j]? = cs[j]? ∧ ∀ n, ((applyAt cs k op)[j]?).map (abs n) = (cs[j]?).map (abs n) := by
+  have h : (applyAt cs k op)[j]? = cs[j]? := by
+    unfold applyAt
+    split
+    · rw [List.getElem?_set_ne (fun e => hj e.symm)]
+    · rfl
+  exact ⟨h, fun n => by rw [h]⟩
+
 /-! ### containers built from a saved palette + data (the repaired constructors) -/
 
 /-- palette of ≥ 2 entries, indices inside it, packed at the save format's width for the palette size: the
@@ -253,5 +266,17 @@ example :
     (all d1, all d2, all d3, all (d3.set 2 8).2) =
       ([.ok 5, .ok 6, .ok 5, .ok 6], [.ok 7, .ok 7, .ok 7, .ok 7], [.ok 3, .ok 8, .ok 3, .ok 8],
        [.ok 3, .ok 8, .ok 8, .ok 8]) := by decide +kernel
+
+/-- two live containers reloaded from single-valued wire forms with different values: each keeps its own -/
+example :
+    let rd := fun (bs : Bytes) (d : Container) => (d.readFrom (Stream.ofBytes bs)).2.1
+    let all := fun (d : Container) => (List.range 4).map fun (k : Nat) => d.get (k : Int)
+    let cs0 := [Container.new ⟨.blocks, 15⟩ 4 1, Container.new ⟨.blocks, 15⟩ 4 2]
+    let cs1 := applyAt cs0 0 (rd [0, 7, 0])
+    let cs2 := applyAt cs1 1 (rd [0, 9, 0])
+    let cs3 := applyAt cs2 1 (fun d => (d.set 2 5).2)
+    (cs2.map all, cs3.map all) =
+      ([[.ok 7, .ok 7, .ok 7, .ok 7], [.ok 9, .ok 9, .ok 9, .ok 9]],
+       [[.ok 7, .ok 7, .ok 7, .ok 7], [.ok 9, .ok 9, .ok 5, .ok 9]]) := by decide +kernel
 
 end GoMC.Props.C12
